@@ -156,6 +156,7 @@ fn any_ta() -> ManuallyDrop<TypedArray> {
 
 // ----------------------------------------------------------------------- in-place contracts
 
+// ALSO: C02
 #[kani::proof_for_contract(TypedArray::is_out_of_bounds)]
 fn c15_ta_is_out_of_bounds() {
     let t = any_ta();
@@ -167,6 +168,7 @@ fn c15_ta_is_out_of_bounds() {
     assert!(r == s_oob(&t, buf)); // mirror of the in-place postcondition (native replay)
 }
 
+// ALSO: C02
 #[kani::proof_for_contract(TypedArray::array_length)]
 fn c15_ta_array_length() {
     let t = any_ta();
@@ -230,6 +232,7 @@ fn c15_ta_validate_index_u64() {
 /// buffer whenever `validate_index` accepted the index - for every view and every buffer length
 /// (e.g. after a shrink of a resizable buffer).
 // FN: TypedArray::validate_index, TypedArray::byte_offset, TypedArrayKind::element_size
+// ALSO: C02
 #[kani::proof]
 fn c15_ta_call_site_byte_index() {
     let t = any_ta();
